@@ -19,7 +19,7 @@ func checkC03(p *Prog, r *Report) {
 	r.Extra["callgraph_nodes"] = len(s.cg.Nodes)
 	c03Globals(p, r, s)
 	c03Locks(p, r, s)
-	c03PoolKey(p, r)
+	c03PoolKey(p, r, "C03.R2c")
 	c03Session(p, r, s, "C03.R2b")
 	c03Pooled(p, r, s)
 	c03Go(p, r, s)
@@ -1111,8 +1111,8 @@ func c03Ambient(p *Prog, r *Report, s *ssaProg) {
 // that run asked for: every key used to index the pool's map is the very
 // path expression that is read from disk (no normalisation that can merge two
 // distinct files into one slot).
-func c03PoolKey(p *Prog, r *Report) {
-	r.Rule("C03.R2c", "cache key identity: in the file pool every index of the map is the same expression as the path handed to the file read, so two distinct files can never share a slot (a run never receives another file's bytes from the session cache); the file is read exactly on a miss, the bytes read are the ones stored, a failed read ends the run, the map is created only when nil", 7)
+func c03PoolKey(p *Prog, r *Report, rule string) {
+	r.Rule(rule, "cache key identity: in the file pool every index of the map is the same expression as the path handed to the file read, so two distinct files can never share a slot (a run never receives another file's bytes from the session cache); the file is read exactly on a miss, the bytes read are the ones stored, a failed read ends the run, the map is created only when nil", 7)
 	fi := p.Funcs["hermes.FilePool.Get"]
 	if fi == nil {
 		r.Ob("Get", "-", false, "hermes.FilePool.Get not found")
